@@ -44,6 +44,27 @@ type scenario struct {
 	tag       string
 	sizes     map[int]int
 	split     map[int]bool
+	// handlers / stub proxies honour the request context the way lura's own pipes do: they wait
+	// for the gate OR the end of the context (then: 500 "context canceled" / an error to the
+	// endpoint handler)
+	ctxAware bool
+	// ServiceConfig timeouts handed to the runner (0 = unset)
+	idle, read, write, readHeader time.Duration
+}
+
+func (s *scenario) cfgString() string {
+	return fmt.Sprintf("ctx_aware=%v idle=%v read=%v write=%v read_header=%v", s.ctxAware, s.idle, s.read, s.write, s.readHeader)
+}
+
+// the longest of the small timeouts (write excluded: it is only set small when no request is gated)
+func (s *scenario) maxSmall() time.Duration {
+	m := s.idle
+	for _, d := range []time.Duration{s.read, s.readHeader} {
+		if d > m {
+			m = d
+		}
+	}
+	return m
 }
 
 type event struct {
@@ -104,15 +125,16 @@ type reqSpec struct {
 }
 
 type world struct {
-	clock   atomic.Int64
-	mu      sync.Mutex
-	evs     []event
-	frozen  bool
-	token   string
-	specs   map[int]*reqSpec
-	notes   []string
-	clients map[string]string
-	logged  []string
+	ctxAware bool
+	clock    atomic.Int64
+	mu       sync.Mutex
+	evs      []event
+	frozen   bool
+	token    string
+	specs    map[int]*reqSpec
+	notes    []string
+	clients  map[string]string
+	logged   []string
 }
 
 func (w *world) rec(term, js string) {
@@ -187,7 +209,20 @@ func (w *world) plainHandler() http.Handler {
 				f.Flush()
 			}
 		}
-		<-sp.gate
+		if w.ctxAware {
+			select {
+			case <-sp.gate:
+			case <-req.Context().Done():
+				// what a lura pipe does when its context ends: no answer from the backend
+				if k == 0 {
+					http.Error(rw, req.Context().Err().Error(), http.StatusInternalServerError)
+				}
+				w.leave(sp)
+				return
+			}
+		} else {
+			<-sp.gate
+		}
 		rw.Write(body[k:])
 		// no Content-Length, no final flush: the response is terminated by the server after
 		// the handler returned, so the client cannot have the full body before this stamp
@@ -197,18 +232,34 @@ func (w *world) plainHandler() http.Handler {
 
 func (w *world) proxyFactory() proxy.Factory {
 	return proxy.FactoryFunc(func(_ *config.EndpointConfig) (proxy.Proxy, error) {
-		return func(_ context.Context, req *proxy.Request) (*proxy.Response, error) {
+		return func(ctx context.Context, req *proxy.Request) (*proxy.Response, error) {
 			id, err := strconv.Atoi(req.Query.Get("id"))
 			if err != nil {
 				return nil, errors.New("bad id")
 			}
 			sp := w.enter(id)
-			<-sp.gate
+			if w.ctxAware {
+				select {
+				case <-sp.gate:
+				case <-ctx.Done():
+					w.leave(sp)
+					return nil, ctx.Err()
+				}
+			} else {
+				<-sp.gate
+			}
 			resp := &proxy.Response{Data: map[string]interface{}{"id": id, "pad": string(expectedBody(id, sp.size))}, IsComplete: true}
 			w.leave(sp)
 			return resp, nil
 		}, nil
 	})
+}
+
+// lura's own gin engine (ContextWithFallback: the endpoint handler's context follows the request's)
+func (w *world) ginEngine(sc config.ServiceConfig) *gin.Engine {
+	h := make(chan string)
+	close(h)
+	return krakendgin.NewEngine(sc, krakendgin.EngineOptions{Logger: capLogger{w}, Writer: io.Discard, Health: h})
 }
 
 type capLogger struct{ w *world }
@@ -236,7 +287,8 @@ func classify(err error) (string, string) {
 }
 
 // runRunner calls the entry point under test and blocks until it returns
-func (w *world) runRunner(ctx context.Context, flavor string, port int) (string, string) {
+func (w *world) runRunner(ctx context.Context, s *scenario, port int) (string, string) {
+	flavor := s.flavor
 	ep := &config.EndpointConfig{Endpoint: "/t" + w.token + "/r", Method: "GET", QueryString: []string{"id"},
 		Timeout: 10 * time.Minute, Backend: []*config.Backend{{URLPattern: "/b"}}}
 	sc := config.ServiceConfig{Version: config.ConfigVersion, Address: "127.0.0.1", Port: port, Timeout: 10 * time.Minute,
@@ -246,11 +298,12 @@ func (w *world) runRunner(ctx context.Context, flavor string, port int) (string,
 	}
 	sc.Address = "127.0.0.1"
 	sc.Port = port
+	sc.IdleTimeout, sc.ReadTimeout, sc.WriteTimeout, sc.ReadHeaderTimeout = s.idle, s.read, s.write, s.readHeader
 	switch flavor {
 	case "Plain":
 		return classify(server.RunServer(ctx, sc, w.plainHandler()))
 	case "Gin":
-		krakendgin.NewFactory(krakendgin.Config{Engine: gin.New(), Middlewares: []gin.HandlerFunc{}, HandlerFactory: krakendgin.EndpointHandler,
+		krakendgin.NewFactory(krakendgin.Config{Engine: w.ginEngine(sc), Middlewares: []gin.HandlerFunc{}, HandlerFactory: krakendgin.EndpointHandler,
 			ProxyFactory: w.proxyFactory(), Logger: capLogger{w}, RunServer: server.RunServer}).NewWithContext(ctx).Run(sc)
 	case "Mux":
 		mux.NewFactory(mux.Config{Engine: mux.DefaultEngine(), Middlewares: []mux.HandlerMiddleware{}, HandlerFactory: mux.EndpointHandler,
@@ -345,7 +398,7 @@ func runScenario(s *scenario) *result {
 }
 
 func runOnce(s *scenario) (*result, bool) {
-	w := &world{token: fmt.Sprintf("%d-%d", os.Getpid(), tokenCounter.Add(1)), specs: map[int]*reqSpec{}, clients: map[string]string{}}
+	w := &world{ctxAware: s.ctxAware, token: fmt.Sprintf("%d-%d", os.Getpid(), tokenCounter.Add(1)), specs: map[int]*reqSpec{}, clients: map[string]string{}}
 	for id, size := range s.sizes {
 		sp := &reqSpec{id: id, size: size, split: s.split[id], gate: make(chan struct{}), entered: make(chan struct{}), finished: make(chan struct{})}
 		if id >= 40 {
@@ -420,7 +473,7 @@ func runOnce(s *scenario) (*result, bool) {
 		switch st.op {
 		case "start":
 			go func() {
-				k, e := w.runRunner(ctx, s.flavor, port)
+				k, e := w.runRunner(ctx, s, port)
 				rvKind, errText = k, e
 				w.rec(emit.App("RunnerReturn", k), "RunnerReturn("+k+")")
 				close(returned)
@@ -459,7 +512,19 @@ func runOnce(s *scenario) (*result, bool) {
 			fins[id] = fin
 			go func() {
 				defer clients.Done()
-				w.recOutcome(id, w.attempt(cl, s.flavor, port, id), false)
+				o := w.attempt(cl, s.flavor, port, id)
+				for k := 0; k < 30 && o != "full" && (s.read > 0 || s.readHeader > 0 || s.idle > 0); k++ {
+					// a small read / header / idle timeout may close a connection before the request was
+					// read (nothing to do with the shutdown): a request that never reached its handler is
+					// sent again, as any client would
+					select {
+					case <-sp.entered:
+						k = 1000
+					default:
+						o = w.attempt(cl, s.flavor, port, id)
+					}
+				}
+				w.recOutcome(id, o, false)
 				close(fin)
 			}()
 			select {
@@ -534,7 +599,8 @@ func runOnce(s *scenario) (*result, bool) {
 		case "pause":
 			select {
 			case <-returned:
-			case <-time.After(pauseWindow):
+			case <-time.After(pauseWindow + 2*s.maxSmall()):
+				// expired: the runner did not return while requests were in flight (an observation)
 			}
 		case "await":
 			awaited = true
